@@ -77,6 +77,11 @@ fn c05_composition(p: Quaternion<R>, q: Quaternion<R>) {
     vassert_eq("M4 concat_self", acc4, m4pq);
     let mut acc3 = mp; Transform::<Point2<R>>::concat_self(&mut acc3, &mq);
     vassert_eq("M3 concat_self", acc3, mpq);
+    // Matrix3 is a transform twice over (of Point2, homogeneous, and of Point3, linear): both impls compose alike
+    vassert_eq("M3 concat (as Transform<Point3>)", Transform::<Point3<R>>::concat(&mp, &mq), mpq);
+    vassert_eq("M3 concat (as Transform<Point2>)", Transform::<Point2<R>>::concat(&mp, &mq), mpq);
+    let mut acc33 = mp; Transform::<Point3<R>>::concat_self(&mut acc33, &mq);
+    vassert_eq("M3 concat_self (as Transform<Point3>)", acc33, mpq);
     let folded: Basis3<R> = [bp, bq].iter().product();
     vassert_eq("Basis3 product", Matrix3::from(folded), mpq);
     let qfold: Quaternion<R> = [p, q].iter().product();
